@@ -27,7 +27,9 @@ RULE = ("one run = 1-3 PV meters with 1-2 inverters each (optionally one bare in
         "fallback stream a lag of 0-2 rounds and a drawn order inside a round (fallback before/after primary); "
         "non-trivial = at least one primary failure; distinct = abstract digest of (fault kind, component) sequence"
         " Generators: PV, battery, grid, producer, consumer and grid-reactive power; per-component UTC offsets of"
-        " the stamps.")
+        " the stamps."
+        " Transient receive errors are attributed to the known finding only if something is delivered late or the"
+        " fallback is not yet in step.")
 QUICK_RUNS = 4000
 THOROUGH_RUNS = 250_000
 EXPECT_PROBES = ["primary_lagging", "transient_primary_error", "grid_formula_variant", "battery_formula_variant", "fallback_started", "fallback_lagging", "primary_recovered", "fallback_before_primary", "primary_closed",
